@@ -27,6 +27,17 @@ checks = {
  "C05": dict(level="model_checking", engine="cluster",
    text="Untimed search (heartbeat requests and replies may be delayed without bound, partitions) with linearizable reads at any node believing to lead, including a deposed leader (seed S-deposed); a successful read must cover every write acknowledged before its invocation and non-overlapping reads must be monotone.",
    technique="explicit-state DFS over the real code, per-node virtual clocks, stale-read monitor with root-cause classifier", ref="4/C05"),
+ "C06": dict(level="exploration", engine="handler",
+   text="Small-scope exhaustive input enumeration: every AppendEntries request of the bounded domain (term lower/equal/higher, every prev index, every contiguous entries window, every leaderCommit) from every Log-Matching-compatible sender log against every follower state (log up to 4/5 entries over 3 terms, compacted prefix, commit index, term), plus ordered request pairs; each case calls the exported handler on a fresh real node booted from preloaded storage and checks the per-call rules of the property; the cluster explorer additionally checks pairwise log matching of persistent logs in every reached state.",
+   technique="exhaustive small-scope input enumeration against the real handler + explicit-state cluster search",
+   note="Trusted base: shims, in-memory storage with the file log's semantics, the oracle's reading of the property (requests contradicting the follower's committed prefix are outside the domain). Bounded by log length and 3 terms.", ref="4/C06"),
+ "C08": dict(level="model_checking", engine="cluster",
+   text="Explicit-state search over one real node booted from preloaded storage (15 start states over term, vote, log) with two puppet peers: every sequence of up to 4/5 steps over injected RequestVote/AppendEntries/InstallSnapshot requests, own timeouts, every answer to its own requests, crashes at quiescent points and at storage-call boundaries, restart; plus the cluster suites. Monitors: term never decreases (replies, status, across restarts), at most one grantee per (node, term), grant implies up-to-date candidate log and a persisted vote, prevote leaves stored (term, vote) unchanged.",
+   technique="explicit-state DFS over a single real node with puppet peers (HANDLER) + cluster DFS", ref="4/C08"),
+ "C19": dict(level="exploration", engine="codec",
+   text="Cartesian enumeration of request/response field domains (0, 1, 2^32, max; empty/ASCII/non-ASCII ids; nil/empty/1 B/1 KiB byte slices; 0-2 entries of all three types; snapshot payloads 0 B to 8 MiB) through two real gRPC transports on loopback, the library's converters in-process, and read-back through the real file storages; received must equal sent field-wise (nil == empty bytes).",
+   technique="exhaustive enumeration of a finite input domain through the real transport and storages",
+   note="Trusted base: loopback TCP, gRPC, the comparison code. LogEntry.Offset is storage-only and not compared on the RPC path. 2-entry lists over real RPCs use a pairwise header design (full product in-process).", ref="4/C19"),
 }
 
 not_applicable = {}
@@ -48,6 +59,8 @@ m = {
  "engines": [
    {"name": "cluster", "path": "mc/explore + mc/sim + mc/monitor", "serves_properties": sorted(k for k, v in checks.items() if v["engine"] == "cluster"),
     "kind_free_text": "stateful depth-first search over environment events of a simulated cluster running the real library under a cooperative scheduler (overlay-instrumented build)"},
+   {"name": "handler", "path": "mc/cmd/check/c06.go + mc/sim/single.go", "serves_properties": ["C06"], "kind_free_text": "exhaustive small-scope input enumeration against exported handlers of a real node booted from preloaded storage"},
+   {"name": "codec", "path": "mc/codec", "serves_properties": ["C19"], "kind_free_text": "exhaustive enumeration of message/record domains through the real gRPC transport and file storages"},
  ],
  "checks": [],
  "not_applicable": [{"property_id": k, "reason": v} for k, v in sorted(not_applicable.items())],
